@@ -58,6 +58,12 @@ func (serv *MTCPServer) Start() (error, bool) {
 		return err, true
 	}
 
+	// Those channels are closed when this MTCPServer is stopped. A restarted one needs new ones; the former stop
+	// signal would stop it again at once, closing the already closed channels.
+	serv.reportChan = make(chan cla.ConvergenceStatus)
+	serv.stopSyn = make(chan struct{})
+	serv.stopAck = make(chan struct{})
+
 	go func(ln *net.TCPListener) {
 		for {
 			select {
